@@ -25,6 +25,15 @@ CHECKS = {
     "C07": ("exploration", "runtime monitoring: SER fields vs an independent account of the same run (same-run sys.monitoring node probe, reference model, harness clock) under 4 host time zones",
             "Generated succeeding and failing pipelines run traced at rotating detail levels under TZ in {UTC,+09:00,-08:00,+05:45}; a same-run sys.monitoring probe records context/data at every node entry/exit and the class that ran. Each SER is compared field by field: created/updated keys vs the real context diff, processor.ref vs the class that ran, every resolved parameter's value and channel, the four built-in checks vs the observed condition, digest chaining and content-functionality, non-negative durations, and every timestamp parsed as UTC must fall inside the harness's own time.time() bracket of the run and be non-decreasing. Held = no untrue SER field among the records observed.",
             "Which parameters a node resolves / from which channel comes from the reference model (C01). Digest injectivity is informational only.", "DESIGN.md §4 C07"),
+    "C08": ("exploration", "runtime monitoring: differential oracle (arithmetic-first reference expansion) via API/YAML/CLI dry-run + icontract postcondition; promptness decided by step/draw/memory monitors (sys.monitoring, itertools proxy, tracemalloc)",
+            "Generated run-space specs (0..4 blocks, all mode combinations, sorted-order trap keys, empty lists, csv/json/yaml/ndjson sources with select/rename, every rejection kind, max_runs around the total) are expanded by the real expand_run_space (also through the YAML parser and `semantiva run --run-space-dry-run`) and compared, order-sensitively, with an independent reference expansion; an icontract postcondition re-checks every returned (runs, meta). For over-cap specs with products 10^6..10^12 a monitor counts executed lines/instructions, tuples drawn from itertools.product and peak memory and stops the real code when a linear budget is exceeded. Held = no disagreement and no over-budget rejection on the executions observed.",
+            "Trusts vlib/runspace_model.py (written from docs/source/run_space.rst). Documented ambiguities are don't-cares listed in the evidence assumptions. Promptness budget constants are generous (prompt rejections use < 25 %).", "DESIGN.md §4 C08"),
+    "C11": ("exploration", "runtime monitoring: independent AST acceptance predicate vs the real compile over a position-complete enumeration of expression trees; bytecode postcondition; audit-hook / sys.monitoring CALL / canary monitors during evaluation",
+            "Every expression kind of the running interpreter's grammar with every depth<=2 subtree in every child position (T1 u T2 exhaustive, T3 sampled in quick and exhaustive in thorough) plus a sandbox-escape corpus embedded at every argument/keyword/operand position is passed to the real ExpressionEvaluator.compile: a returned compile for a predicate-false expression, a non-ExpressionError rejection, forbidden opcodes/names in the compiled code, or an audit event / non-whitelisted call / builtins read while evaluating an accepted expression is a violation. Held = none on the expressions observed; exhaustive only w.r.t. the stated tree space.",
+            "The acceptance predicate in vlib/exprspace.py states the documented whitelist. `open`/`print` are not used as canary names (side effects on the harness).", "DESIGN.md §4 C11"),
+    "C14": ("exploration", "runtime monitoring: deterministic token-passing scheduler over real threads (sys.monitoring LINE/INSTRUCTION yield points, lock shim) with bounded-preemption DFS / PCT / random schedules; exactly-once + order history checker",
+            "The real in-memory transport is driven by real threads under a deterministic scheduler that owns every context switch at line (and, in thorough, instruction) granularity of in_memory.py; scenarios of 2-5 threads over existing/fresh/shared channels and exact/wildcard patterns are explored by bounded-preemption DFS (exhaustive to the stated bound), PCT and random schedules, plus a free-running stress. Unambiguous histories (publisher, channel, seq) are checked for conservation, per-publisher order, pattern match and thread exceptions. Held = no violating history among the interleavings observed.",
+            "Exhaustive only up to the stated preemption bound and granularity; watchdog activations (0 observed) would make a run inconclusive.", "DESIGN.md §4 C14"),
 }
 
 NOT_BUILT_REASON = "check not implemented yet in this round (work in progress; see DESIGN.md §4 for the planned monitor)"
